@@ -71,6 +71,9 @@ def obligations():
             o.append(Obl(f"C01.text.{f}.{cell}", "py", T, "writer", enc[f], "2 frames (rst7: 1) x 3 atoms; symbolic coordinates, times, cell lengths; every path through the writer",
                          "an independent reader of the format (written from its specification) and mdtraj's own reader both extract exactly the trajectory's numbers from the written text", 300,
                          params={"fmt": f, "cell": cell, "n_atoms": 3}))
+    for f in ("lammpstrj", "gro", "pdb"):
+        o.append(Obl(f"C01.text.{f}.tri2", "py", T, "writer", enc[f], "same with a cell whose beta and gamma are both obtuse (80 / 95 / 100 degrees: b and c lean towards -x; kept below the token range of the formatting trick)",
+                     "same (the tilt extents of the LAMMPS bounding box then come from xy + xz)", 300, params={"fmt": f, "cell": "tri2", "n_atoms": 3}))
     o.append(Obl("C01.text.mdcrd.7atoms", "py", T, "writer", enc["mdcrd"], "7 atoms: 21 values = 2 full 10F8.3 records + 1", "record wrapping at 10 values per line and a fresh record per frame", 300, params={"fmt": "mdcrd", "cell": "ortho", "n_atoms": 7}))
     o.append(Obl("C01.text.rst7.odd_atoms", "py", T, "writer", enc["rst7"], "3 and 4 atoms: 6F12.7 records with an odd / even number of atoms", "line breaks after every second atom; box line on its own record", 300, params={"fmt": "rst7", "cell": "ortho", "n_atoms": 4}))
     o.append(Obl("C01.text.rst7.two_atoms_60deg", "py", T, "writer", enc["rst7"], "2 atoms, rhombohedral cell 60/60/60 with lengths below 60 A: the reader has to tell a box line from a velocity line", "the box written for a 2-atom system is read back as a box", 300,
